@@ -59,6 +59,11 @@ func runC10(tier string, r *rng) {
 	for _, c := range cfgs {
 		c10Store(c.n, c.tail, tier, r)
 	}
+	// the same server with its metrics switched on (a configuration, not another behaviour)
+	c10Metrics = true
+	c10Store(70, 69, tier, r)
+	c10Store(5, 3, tier, r)
+	c10Metrics = false
 	for _, m := range [][5]uint64{{30, 10, 100, 30, 3}, {30, 10, 100, 28, 5}, {30, 10, 1, 30, 2}, {30, 1, 100, 31, 4}, {30, 10, 40, 5, 64}, {30, 10, 100, 25, 64}} {
 		c10Moving(int(m[0]), int(m[1]), int(m[2]), m[3], m[4])
 	}
@@ -122,6 +127,8 @@ func c10Moving(n, tail, grow int, origin, amount uint64) {
 		tail, n+grow, n, origin, amount, end, reply, reads, slow)
 }
 
+var c10Metrics bool // the next c10Store builds its server WithMetrics
+
 func c10Store(n, tail int, tier string, r *rng) {
 	ctx := context.Background()
 	mn, hosts, err := peers.NewNet(2)
@@ -132,9 +139,12 @@ func c10Store(n, tail int, tier string, r *rng) {
 	st, chain := prunedStore(n, tail)
 	defer st.Stop(ctx) //nolint:errcheck
 	rec := &peers.Recorder{Store: st}
-	srv, err := p2p.NewExchangeServer[*vhdr.Header](hosts[1], rec,
-		p2p.WithNetworkID[p2p.ServerParameters](peers.NetworkID),
-		p2p.WithRequestTimeout[p2p.ServerParameters](400*time.Millisecond))
+	sopts := []p2p.Option[p2p.ServerParameters]{p2p.WithNetworkID[p2p.ServerParameters](peers.NetworkID),
+		p2p.WithRequestTimeout[p2p.ServerParameters](400 * time.Millisecond)}
+	if c10Metrics {
+		sopts = append(sopts, p2p.WithMetrics[p2p.ServerParameters]())
+	}
+	srv, err := p2p.NewExchangeServer[*vhdr.Header](hosts[1], rec, sopts...)
 	if err != nil {
 		panic(err)
 	}
